@@ -373,13 +373,16 @@ Returns:
         val = str(getattr(f, key, '')).replace('\n', ' ').replace('\r', ' ')
         print('%s: %s' % (key, val), file=outfile)
 
-    vals = [filled(f.variables[f.INDEPENDENT_VARIABLE][:]).ravel()]
+    def codefilled(var):
+        return filled(var[:], getattr(var, 'missing_value', -999)).ravel()
+
+    vals = [codefilled(f.variables[f.INDEPENDENT_VARIABLE])]
     keys = [f.INDEPENDENT_VARIABLE]
     for key, var in f.variables.items():
         if key == f.INDEPENDENT_VARIABLE:
             continue
         keys.append(key)
-        vals.append(filled(var[:]).ravel())
+        vals.append(codefilled(var))
 
     print(delim.join(keys), file=outfile)
     for row in array(vals).T:
